@@ -557,8 +557,15 @@ class BaseClientHandler:
         # of input, if it is "DONE" then we complete this command
         # If it is any other input we raise a bad syntax error.
         #
+        # NOTE: Only once nothing is waiting do we switch to immediate
+        #       delivery (and there is no await between the test and the
+        #       switch): what other sessions queue while a slow client drains
+        #       this flush has to go out before anything that is pushed
+        #       directly, or the client ends up with the older flags.
+        #
         await self.client.push("+ idling\r\n")
-        await self.send_pending_notifications()
+        while self.pending_notifications:
+            await self.send_pending_notifications()
         self.idling = True
         return False
 
